@@ -181,6 +181,7 @@ class FProc:
         self.termed = False
         self.code = None
         self.startup_polled = False     # the is_alive() of its startup wait has answered
+        self.started_key = None         # (tick, drain point) at which start() was called
 
     def start(self):
         assert self.state == "new"
@@ -192,6 +193,7 @@ class FProc:
                                  live=[p.pid for p in same if p.state == "live"],
                                  unreaped=[p.pid for p in same if p.state in ("live", "zombie")]))
         self.state = "live"
+        self.started_key = (W.tick, W.drain_idx)
         W.procs[self.pid] = self
         W.all.append(self)
         W.slot_proc[self.slot] = self
@@ -236,18 +238,22 @@ class FProc:
         return None if self.state in ("new", "live") else self.code
 
     def is_alive(self):
-        caller = sys._getframe(1).f_code.co_name
-        if caller == "start":           # the liveness scan / the shutdown branch
+        # Which poll is this?  Decided by WHEN it happens, not by the name of the calling function (helpers may be
+        # extracted or renamed): the first is_alive() on a process after its start(), before the manager has reached its
+        # next queue look (empty()) or sleep, is the poll of that process' startup wait; every other is_alive() is a poll of
+        # the liveness scan / the shutdown branch and is a delivery point of the tick's `alive` list.
+        startup = not self.startup_polled and self.started_key == (W.tick, W.drain_idx)
+        if startup:
+            W.last_polled = self
+            early("poll", self)
+        else:
             k = W.alive_idx
             W.alive_idx += 1
             if W.cur is not None and k < len(W.cur["alive"]):
                 deliver([e for e in W.cur["alive"][k] if e[0] != "dies"])
-        elif caller == "_wait_for_worker_startup":
-            W.last_polled = self
-            early("poll", self)
         if self.state == "zombie":
             self.state = "reaped"
-        if caller == "_wait_for_worker_startup":
+        if startup:
             self.startup_polled = True
             if self.state != "live":
                 W.wait_skipped.add(self.slot)
